@@ -2,6 +2,7 @@ package rules
 
 import (
 	"fmt"
+	"go/token"
 	"strings"
 
 	"dtnverif/core"
@@ -126,27 +127,109 @@ func C08(p *core.Program, r *core.Report) {
 		}
 		r.Check(okRet, "file-before-index/"+fname(push)+"/store-error-returned", "a failed part-file write is returned to the caller", p.Pos(sc.Pos()), "", "storeBundle's error is not returned")
 	}
-	// Delete: files then index, errors do not skip
+	// Delete: the index record goes first, then all part files. A record is what
+	// makes a bundle visible (QueryId, QueryPending): it must never outlive its
+	// files, an orphaned file is harmless.
 	del := p.Func(storagePkg, "Store", "Delete")
-	for _, c := range core.CallsTo(del, bhPkg+".Store.Delete") {
-		dels := core.CallsTo(del, storagePkg+".BundlePart.deleteBundle")
-		okLoop := len(dels) == 1 && core.InLoop(dels[0].Block())
-		// the index delete is not inside the file loop and not guarded by a file error
-		conds := core.DominatingConds(c.Block())
-		okNoSkip := true
-		for _, d := range dels {
-			if errNilGuard(conds, d.(ssa.Value)) {
-				okNoSkip = false
-			}
-		}
-		okAfter := !core.InLoop(c.Block())
+	idxDels := core.CallsTo(del, bhPkg+".Store.Delete")
+	fileDels := core.CallsTo(del, storagePkg+".BundlePart.deleteBundle")
+	r.Count("index deletions in Store.Delete", len(idxDels))
+	r.Min("index deletions in Store.Delete", 1)
+	for _, c := range idxDels {
+		okLoop := len(fileDels) == 1 && core.InLoop(fileDels[0].Block())
 		l := (*core.Loop)(nil)
-		if len(dels) == 1 {
-			l = core.InnermostLoop(core.Loops(del), dels[0].Block())
+		if len(fileDels) == 1 {
+			l = core.InnermostLoop(core.Loops(del), fileDels[0].Block())
 		}
 		okAll := l != nil && len(l.EarlyExits()) == 0
-		r.Check(okLoop && okNoSkip && okAfter && okAll, "file-before-index/"+fname(del)+"/files-then-index", "deleting removes all part files first (complete loop) and then the index entry, also when a file removal failed", p.Pos(c.Pos()), "", fmt.Sprintf("file loop %v, complete %v, index delete after loop %v, not skipped on file error %v", okLoop, okAll, okAfter, okNoSkip))
+		// every file removal happens after the record is gone ...
+		okOrder := !core.InLoop(c.Block())
+		for _, d := range fileDels {
+			if !core.MustPassBefore(d, func(i ssa.Instruction) bool { return i == ssa.Instruction(c) }) {
+				okOrder = false
+			}
+			// ... and only if that succeeded (otherwise record and files stay together)
+			if !errNilGuard(core.DominatingConds(d.Block()), c.(ssa.Value)) {
+				okOrder = false
+			}
+		}
+		// a found record is removed on every path: the index delete is guarded only by the lookup
+		okAlways := true
+		for _, cd := range core.DominatingConds(c.Block()) {
+			x, _, isNilCmp := core.NilCmp(cd)
+			if !isNilCmp {
+				okAlways = false
+				continue
+			}
+			ex, isEx := x.(*ssa.Extract)
+			if !isEx {
+				okAlways = false
+				continue
+			}
+			if qc, isCall := ex.Tuple.(*ssa.Call); !isCall || !core.NameIs(core.CalleeName(qc), storagePkg+".Store.QueryId") {
+				okAlways = false
+			}
+		}
+		r.Check(okLoop && okAll && okOrder && okAlways, "file-before-index/"+fname(del)+"/index-then-files", "deleting removes the index record first and, once that succeeded, all part files (complete loop; a failed file removal does not stop the loop): a stop in between leaves orphaned files, never a record whose files are gone", p.Pos(c.Pos()), "", fmt.Sprintf("file loop %v, complete %v, record removed before every file removal and files only after success %v, record removal guarded by the lookup only %v", okLoop, okAll, okOrder, okAlways))
 	}
+
+	// Push: a push is acknowledged without storing anything only if the record
+	// already holds this very data: the stored record is the whole bundle, or the
+	// fragment was found among its parts.
+	nIgn := 0
+	for _, rv := range core.ReturnValues(push, 0) {
+		k, isC := rv.V.(*ssa.Const)
+		if !isC || k.Value != nil {
+			continue
+		}
+		stored := false
+		for _, sc := range core.CallsTo(push, storagePkg+".BundlePart.storeBundle") {
+			if core.MustPassBefore(rv.At, func(i ssa.Instruction) bool { return i == ssa.Instruction(sc) }) {
+				stored = true
+			}
+		}
+		if stored {
+			continue
+		}
+		nIgn++
+		conds := core.DominatingConds(rv.At.Block())
+		okWhole, okFound := false, false
+		for _, cd := range conds {
+			if pathEndsWith(cd.V, "Fragmented") && !cd.True && core.DependsOn(cd.V, func(v ssa.Value) bool {
+				qc, isCall := v.(*ssa.Call)
+				return isCall && core.NameIs(core.CalleeName(qc), storagePkg+".Store.QueryId")
+			}) {
+				okWhole = true
+			}
+			if isPartsMatchCond(cd) {
+				okFound = true
+			}
+		}
+		r.Check(okWhole || okFound, fmt.Sprintf("store/%s/acknowledged-without-storing#%d", fname(push), nIgn), "Push returns success without writing anything only when the stored record is the whole bundle or already contains this fragment (a whole bundle arriving after some of its fragments must replace them, not be dropped)", p.Pos(rv.At.Pos()), "", "a push is acknowledged and dropped although the record holds only (other) fragments; "+condStrings(conds))
+	}
+	r.Count("acknowledged-without-storing returns in Push", nIgn)
+	r.Min("acknowledged-without-storing returns in Push", 2)
+
+	// Load agrees with IsComplete: a record that is not fragmented is complete and is loaded directly
+	// (ReassembleFragments refuses bundles that are not fragments)
+	ldFn := p.Func(storagePkg, "BundleItem", "Load")
+	okDirect := false
+	for _, rc := range core.CallsTo(ldFn, bp7+".ReassembleFragments") {
+		for _, cd := range core.DominatingConds(rc.Block()) {
+			if pathEndsWith(cd.V, "Fragmented") && cd.True {
+				okDirect = true
+			}
+		}
+	}
+	nDirect := 0
+	for _, lc := range core.CallsTo(ldFn, storagePkg+".BundlePart.Load") {
+		for _, cd := range core.DominatingConds(lc.Block()) {
+			if pathEndsWith(cd.V, "Fragmented") && !cd.True {
+				nDirect++
+			}
+		}
+	}
+	r.Check(okDirect && nDirect > 0, "store/"+fname(ldFn)+"/whole-bundle-direct", "BundleItem.Load reassembles only fragmented records and loads a record stored as a whole directly (IsComplete reports such a record complete; ReassembleFragments refuses non-fragments)", p.Pos(ldFn.Pos()), "", fmt.Sprintf("ReassembleFragments only under Fragmented: %v; direct part load under !Fragmented: %v", okDirect, nDirect > 0))
 
 	// ---- AT
 	g := newGuardedEngine(p)
@@ -236,4 +319,30 @@ func storeItemRMW(fn *ssa.Function) (queries []ssa.CallInstruction, updates []ss
 		}
 	}
 	return
+}
+
+// isPartsMatchCond: the condition is (derived from) the comparison of a stored
+// part's coordinates with the pushed part's — the "fragment already stored"
+// outcome of the duplicate search.
+func isPartsMatchCond(cd core.Cond) bool {
+	if !cd.True {
+		return false
+	}
+	return core.DependsOn(cd.V, func(v ssa.Value) bool {
+		b, ok := v.(*ssa.BinOp)
+		return ok && b.Op == token.EQL && (pathEndsWith(b.X, "FragmentOffset") || pathEndsWith(b.X, "PayloadLength") || pathEndsWith(b.X, "TotalDataLength"))
+	}) || isBoolPhiOfConsts(cd.V)
+}
+
+func isBoolPhiOfConsts(v ssa.Value) bool {
+	phi, ok := v.(*ssa.Phi)
+	if !ok {
+		return false
+	}
+	for _, e := range phi.Edges {
+		if _, isC := e.(*ssa.Const); !isC {
+			return false
+		}
+	}
+	return true
 }
